@@ -33,6 +33,8 @@ func checkC15(c *Ctx) {
 	c.Rule("C15/R7", "where a measurement lands does not depend on the lines before it: in Builder.Add every value is appended to the cell looked up (or created) under that measurement's own table key and the result's (row, column) key — no shortcut through cells remembered from an earlier call (same rule as C14/R2)")
 	c.Rule("C15/R8", "sorted key order cannot silently degrade to map order: flattened-field cache invariant (same rule as C09/R10)")
 	c.Rule("C15/R10", "key identity (shared with C08/R1 and C14/R6): interning hashes, compares and stores one trimmed row, so equal value tuples give one key — two keys with identical values would make tables and rows appear twice, in hash-map order")
+	c.Rule("C15/R16", "a cell's warning is computed from all of its residues: NonSingularFields is handed the collected key list itself, not a selection of it")
+	c.Rule("C15/R17", "comparing does not change the order (same rule as C09/R14): no comparator stored into Field.cmp writes state it captured — the per-cell goroutines sort with the same comparators")
 	c.Rule("C15/R15", "what a cell warns about does not depend on arrival order: every measurement's residue is recorded (same rule as C14/R14), so the set the footnote is computed from is the same for every permutation of the input")
 	c.Rule("C15/R14", "the value comparators are orders (same rule as C09/R3): numbers before non-numbers, NaN placed consistently, so the sorted key order does not depend on the arrangement the map iteration happened to produce")
 	c.Rule("C15/R13", "the concurrency limiter always admits someone: the capacity of every channel the table builder makes, evaluated with GOMAXPROCS = 1, 2 and 64, is at least 1 (a token is put in before the goroutine that takes it out exists, so capacity 0 blocks for ever)")
@@ -68,6 +70,8 @@ func checkC15(c *Ctx) {
 	c15Limiter(c, p)
 	c.Under("C09/R3", "C15/R14", func() { c09Comparators(c, p) })
 	c.Under("C14/R14", "C15/R15", func() { c14ResidueRecorded(c, p) })
+	c15WholeResidue(c, p, "C15/R16")
+	c09ComparatorsReadOnly(c, p, "C15/R17")
 	// R9: process-wide caches on the command's path cannot carry one run's arguments into the next
 	var memoFns []*ssa.Function
 	for _, fn := range p.Funcs(c15Pkgs...) {
